@@ -712,11 +712,13 @@ def write_translated(path):
     grp, gerrors = py2lean.generate_group(os.path.join(SRC, "serif"))
     ali, aerrors = py2lean.generate_alias(os.path.join(SRC, "serif"))
     rep, perrors = py2lean.generate_repr(os.path.join(SRC, "serif"))
-    rerrors = rerrors + gerrors + aerrors + perrors
+    nam, nerrors = py2lean.generate_names(os.path.join(SRC, "serif"))
+    rerrors = rerrors + gerrors + aerrors + perrors + nerrors
     for pth, txt in ((path, text), (os.path.join(os.path.dirname(path), "TranslatedRel.lean"), rel),
                      (os.path.join(os.path.dirname(path), "TranslatedGroup.lean"), grp),
                      (os.path.join(os.path.dirname(path), "TranslatedAlias.lean"), ali),
-                     (os.path.join(os.path.dirname(path), "TranslatedRepr.lean"), rep)):
+                     (os.path.join(os.path.dirname(path), "TranslatedRepr.lean"), rep),
+                     (os.path.join(os.path.dirname(path), "TranslatedNames.lean"), nam)):
         old = open(pth).read() if os.path.exists(pth) else None
         if old != txt:
             tmp = pth + ".tmp%d" % os.getpid()
